@@ -173,6 +173,7 @@ template<class V> static void run(const VpCase* c, VpOutcome* o) {
     if ((f == F_BLEND || f == F_KEEP || f == F_CLEAR || f == F_NEGATE) && nset != 0 && nset != W) { o->classes |= 1u << CL_MIXED_MASK; o->nontrivial = 1; }
     if (!o->nontrivial) o->classes |= 1u << CL_ORDINARY;
     bool have = false, two = false;
+    poison_below(c->v[0][0] ^ c->v[3][0] ^ c->op);
     if (!scalar) {
         V a = mk<V>(al), b = mk<V>(bl), cc = mk<V>(cl); M m = mkmask<M>(ml);
         V r{}; SV rs{}; std::array<V, 2> rr{};
